@@ -5,8 +5,14 @@ use std::ops::Deref;
 use std::panic::{AssertUnwindSafe, catch_unwind, resume_unwind};
 use std::pin::Pin;
 use std::ptr::NonNull;
+#[cfg(folo_verif)]
+use std::sync::Arc;
+#[cfg(not(folo_verif))]
 use std::sync::{Arc, Mutex};
 
+
+#[cfg(folo_verif)]
+use crate::verif_sync::Mutex;
 use crate::{NEVER_POISONED, PooledMut, RawOpaquePoolThreadSafe, RawPooled, RawPooledMut};
 
 // Note that while this is a thread-safe handle, we do not require `T: Send` because
